@@ -125,6 +125,33 @@ DirectedIsUndirectedOnSym ==
                    /\ HasUnreachablePair(NS, A) = HasUnreachablePair(NS, Bin(NS, A))
                    /\ TriangleClass(NS, A) = TriangleClass(NS, Bin(NS, A))
 
+(* the cheaper class predicates used for large records (n > BigN) are the same     *)
+(* predicates: on every 0/1 digraph and every symmetric weighted matrix            *)
+BigClassesCoincide ==
+  /\ At("dir01") => /\ HasUnreachablePairBig(NG, A) = HasUnreachablePair(NG, A)
+                    /\ TriangleClassBig(NG, A) = TriangleClass(NG, A)
+                    /\ \A u \in 1..NG : ReachSetBig(NG, A, u) = ReachSet(NG, A, u)
+  /\ At("symw")  => /\ HasUnreachablePairBig(NS, A) = HasUnreachablePair(NS, A)
+                    /\ TriangleClassBig(NS, A) = TriangleClass(NS, A)
+                    /\ \A u \in 1..NS : ReachSetBig(NS, A, u) = ReachSet(NS, A, u)
+
+(* wide reals: (hi, lo) with hi = 0 is the plain E-q6 comparison; the carry cases  *)
+(* agree with exact arithmetic on a grid of values around the 10^9 boundaries      *)
+WideGrid == {<<h, l>> \in (-2..2) \X {-999999999, -999999998, -3, -1, 0, 1, 2, 3, 999999997, 999999999} :
+               WideWellFormed(h, l)}
+(* value / 10^9 split so that differences can be formed within 32 bits: compare    *)
+(* v = h*10^9 + l through (h, l) lexicographically against an exact small offset   *)
+WideExactNear(a, b, tol) ==
+  \E dd \in -tol..tol :         \* a = b + dd, spelled on (hi, lo) with one carry/borrow
+     LET l == b[2] + dd IN
+     \/ (a[1] = b[1] /\ a[2] = l)
+     \/ (a[1] = b[1] + 1 /\ a[2] = l - Giga)
+     \/ (a[1] = b[1] - 1 /\ a[2] = l + Giga)
+ASSUME \A a, b \in WideGrid :
+         NearQWide(a[1], a[2], b[1], b[2], 2) = WideExactNear(a, b, 2)
+ASSUME \A x, y \in {-5, 0, 1, 2, 3, 999999999, -999999999, INF, -INF, NAN} :
+         NearQWide(0, x, 0, y, 2) = NearQ(x, y, 2)
+
 (* ---- constant-level facts (evaluated once) --------------------------------------- *)
 (* 52 partitions of 5 nodes (Bell numbers), and partitions x injective renamings    *)
 (* into the pool = every label vector over the pool: nothing is left out            *)
